@@ -264,6 +264,10 @@ func (vm *VM) callNative(fn *NativeFunction, numVariadic int8, shift StackShift,
 		panic(errNilPointer)
 	}
 
+	if verifEnabled {
+		verifCallNative(vm, fn)
+	}
+
 	// Make a copy of the frame pointer.
 	fp := vm.fp
 
@@ -654,6 +658,9 @@ func (vm *VM) startGoroutine() bool {
 	copy(nvm.regs.float, vm.regs.float[vm.fp[1]+Addr(off.A):vm.fp[1]+127])
 	copy(nvm.regs.string, vm.regs.string[vm.fp[2]+Addr(off.B):vm.fp[2]+127])
 	copy(nvm.regs.general, vm.regs.general[vm.fp[3]+Addr(off.C):vm.fp[3]+127])
+	if verifEnabled {
+		verifSpawn(vm, nvm)
+	}
 	go nvm.runFunc(fn, vars)
 	vm.pc++
 	return false
